@@ -12,6 +12,12 @@ import (
 // Global atomic counter for fast void-return service key generation
 var voidKeyCounter uint64
 
+// voidKey is the type of the keys generated for constructors that return
+// nothing and were registered without a name.
+type voidKey uint64
+
+func (k voidKey) String() string { return "v" + strconv.FormatUint(uint64(k), 36) }
+
 // Descriptor represents services
 type Descriptor struct {
 	// Type is the service type this descriptor produces
@@ -181,8 +187,9 @@ func newDescriptorWithAnalyzer(service any, lifetime Lifetime, analyzer *reflect
 		if descriptor.VoidReturn {
 			descriptor.Type = reflect.TypeOf((*struct{})(nil)).Elem()
 			if descriptor.Key == nil {
-				// Use fast atomic counter instead of UUID
-				descriptor.Key = "v" + strconv.FormatUint(atomic.AddUint64(&voidKeyCounter, 1), 36)
+				// Use fast atomic counter instead of UUID. The key has a type of its
+				// own: it cannot collide with a name a user gives a service
+				descriptor.Key = voidKey(atomic.AddUint64(&voidKeyCounter, 1))
 			}
 		} else {
 			// Normal function with returns
